@@ -199,3 +199,15 @@ _p(
     uncovered=["analyse_module's tracer (utils.py lines 183-324: source rewriting, autowrap) is not under contract"],
     explanation="PROVED: ScaleTrackingAutogradFunction and ScaleTracker return the tracked tensor's value unchanged (clone / alias) and pass the gradient through unchanged; the only side effect is node_meta['metrics'] = Metrics(t) (forward) and .set_bwd(g) (backward) resp. the two std fields; Metrics.from_tensor's six fields are mean|x|, |mean x|, std, max|x|, min|x|, numel as terms over the torch reductions; bwd stays None until backward runs; both run_node overrides return the tracked tensor (so all consumers use it and its backward receives their summed gradient), never instrument non-float values and give them no metrics; _make_input_tensors_require_grad forwards every argument unchanged and only calls requires_grad_() on float tensors. BOUNDED: end-to-end bit-identity and metric recomputation.",
 )
+
+_p(
+    "C17",
+    level="other",
+    technique="contract-based deductive verification of frame / aliasing / ordering contracts of apply_transform, _compose_backends (loop invariant), _order_backends (all lists of the quantifier, exhaustive), unit_scale and torch_nn_modules_to_user_modules under assumed deepcopy and TorchDynamo contracts; end-to-end chains by a bounded stand-in",
+    trusted_base=SMT + ["assumed contract of copy.deepcopy on modules (deep; functions / closures atomic; bound methods re-bound to the copy; parameter storage cloned: C09 + validators group copy)", "A5: TorchDynamo is a deterministic function of (module.forward at call time, inputs, backend list) -- trusted, not validated", "bounded/c17_chains.py (bounded stand-in, not proof)"],
+    assumptions=[A7, "_order_backends: every list over {unit-scaling, quantisation, two other function backends} of length <= 4 (quick) / <= 6 (thorough) with at most one unit-scaling and one quantisation backend is executed (exhaustive for the property's quantifier: chains use each at most once)", "track_scales / compile come last (documented): their backend objects are not functions and are outside _order_backends' domain"],
+    components=[comp.validators(["copy"]), comp.script("c17-chains", "BOUNDED stand-in", ["{ROOT}/bounded/c17_chains.py"])],
+    bounded=["real chains U, Q, UQ, QU (nearest-rounding formats) on 1 (quick) / 2 (thorough) small modules through TorchDynamo: original state_dict / outputs / gradients unchanged, no shared storage, repeat-call equality, backend order, each transform once, both orders compute the same function given equal parameters"],
+    uncovered=["what TorchDynamo does with the patched forward (graph breaks, guard failures, cache resets) is not decided"],
+    explanation="PROVED (under the deepcopy / Dynamo contracts): apply_transform returns a new module sharing no object or storage with its argument and never writes to anything reachable from the argument; result.backends == earlier backends ++ [new]; base_forward is the ORIGINAL forward re-bound to the copy (an earlier wrapper is not wrapped again: each earlier transform exactly once); the first call re-traces (no stale dynamo_forward of the source is used), later calls reuse it, the wrapper is restored after each call; the composite backend closes over the result's OWN backend list so the in-place reordering by unit_scale is effective; _compose_backends applies the backends in list order, each once (loop invariant); _order_backends yields a permutation with unit scaling before quantisation, other backends' relative order unchanged, identity if already ordered; unit_scale reorders the result's list and initialises the result only; torch_nn_modules_to_user_modules keeps the same parameter objects. BOUNDED: real chains.",
+)
